@@ -25,7 +25,7 @@ PROPERTY = "C16"
 LEVEL = "exploration"
 DETERMINISM_CASES = 1
 RULE = ("cases = every budget over feature subsets (size <= 1 quick / all 64 thorough) x 2 rule modes x 2 transform settings x 2 supplemental settings, plus 4 legacy-CSV "
-        "budgets; per budget: 1 `up`, one `explain <merchant>` per merchant, 13 probes x (`explain <description> --amount`, `up` on the twin budget), 1 `discover`. "
+        "budgets; per budget: 1 `up`, one `explain <merchant>` per merchant, 15 probes x (`explain <description> --amount`, `up` on the twin budget), 1 `discover`. "
         "non-trivial = budgets with >= 1 feature or non-default mode/transform/supplemental; budgets distinct by construction")
 ASSUMPTIONS = ["probes are (description, amount) pairs whose classification does not depend on date, source or custom fields (explain cannot be told those)",
                "explain's description trace is compared on merchant, category, subcategory; tags/pattern are compared on the explain-merchant path"]
@@ -35,16 +35,22 @@ FEATURES = ["tagonly-first", "variable", "let-field", "not-contains", "weekday",
 STMT = [("01/05/2025", "NETFLIX.COM 1", "15.50"), ("01/06/2025", "UBER EATS 22", "30.00"), ("01/07/2025", "UBER TRIP", "150.00"), ("02/03/2025", "COFFEE BAR", "4.50"),
         ("02/04/2025", "SQ *COFFEE CART", "5.50"), ("02/05/2025", "MYSTERY SHOP", "99.75"), ("02/06/2025", "ODD PLACE", "20.00"), ("02/07/2025", "ODD PLACE", "21.25"),
         # two identical uncategorised charges on one day (each counts), and one whose description holds a run of blanks
-        ("02/08/2025", "TWIN CHARGE", "7.25"), ("02/08/2025", "TWIN CHARGE", "7.25"), ("02/09/2025", "ACME  CORP   55", "12.00")]
+        ("02/08/2025", "TWIN CHARGE", "7.25"), ("02/08/2025", "TWIN CHARGE", "7.25"), ("02/09/2025", "ACME  CORP   55", "12.00"),
+        # a rule-named merchant (ODDCASE) and an uncategorised one whose derived name differs from it only in letter case (Oddcase)
+        ("02/10/2025", "ODDCASE CORP 1", "33.00"), ("02/11/2025", "oddcase 4411", "8.00")]
 PROBES = [("ZZ NETFLIX PROBE", 50.0), ("ZZ UBER EATS PROBE", 50.0), ("ZZ UBER PROBE", 150.0), ("ZZ COFFEE PROBE", 50.0), ("ZZ NOTHING PROBE", 150.0),
           ("SQ *ZZ NETFLIX PROBE", 50.0), ("ZZ BOOKISH PROBE", 99.75), ("SQ *ZZ NOWHERE PROBE", 50.0), ("ZZ OUTLET PROBE", 40.0), ("ZZ OUTLET PROBE", -40.0),
           # runs of blanks are part of the description (a rule can depend on them)
-          ("ZZ ACME  CORP PROBE", 50.0), ("ZZ ACME CORP PROBE", 50.0), ("ZED   MART PROBE", 50.0)]
+          ("ZZ ACME  CORP PROBE", 50.0), ("ZZ ACME CORP PROBE", 50.0), ("ZED   MART PROBE", 50.0),
+          # transformed once this still starts with APLPAY (an [Apple Pay] rule decides); transformed twice it would not
+          ("SQ *APLPAY ZZ NETFLIX PROBE", 50.0), ("APLPAY SQ *ZZ NETFLIX PROBE", 50.0)]
 
 
 def rules_text(feats, transform, supplemental):
     pre, rules = [], []
     if transform:
+        # two prefix strippers: applying the pair twice is not the same as applying it once ("SQ *APLPAY X" -> "APLPAY X" -> ... )
+        pre.append('field.description = strip_prefix(field.description, "APLPAY ")')
         pre.append('field.description = regex_replace(field.description, "^SQ \\\\*", "")')
     if "variable" in feats:
         pre.append('is_eats = contains("EATS")')
@@ -62,6 +68,8 @@ def rules_text(feats, transform, supplemental):
             rules.append('[Ordered]\nlet: hits = [r for r in orders if r.amount == amount]\nmatch: len(hits) > 0\ncategory: Shopping\nsubcategory: Orders\ntags: verified\n')
         else:
             rules.append('[Ordered]\nmatch: any(r.amount == amount for r in orders)\ncategory: Shopping\nsubcategory: Orders\ntags: verified\n')
+    rules.append('[Apple Pay]\nmatch: startswith("APLPAY")\ncategory: Wallet\nsubcategory: ApplePay\n')
+    rules.append('[ODDCASE]\nmatch: contains("ODDCASE CORP")\ncategory: Income\nsubcategory: Odd\ntags: odd\n')
     rules.append('[Acme Two Blanks]\nmatch: contains("ACME  CORP") or startswith("ZED   MART")\ncategory: Office\nsubcategory: Supplies\n')
     # only negative amounts: a positive probe with the same description stays Unknown
     rules.append('[Outlet Refund]\nmatch: amount < 0 and contains("OUTLET")\ncategory: Income\nsubcategory: Refunds\n')
